@@ -64,7 +64,7 @@ def check(prog, run):
     # ---- C1 copy-constructor completeness
     r = run.rule("C1", "every site that rebuilds a schema element from an existing one (constructor call copying >= 2 attributes "
                        "of one source object) supplies every constructor parameter: a parameter left to its default is an attribute "
-                       "silently dropped (resolver, type resolver, python_name, description, ...)", 19)
+                       "silently dropped (resolver, type resolver, python_name, description, ...)", 12)
     for f, call, ci, src, supplied, params in rebuild_sites(prog):
         run.looked_at(f)
         r.instance("%s: %s(...) from `%s` supplies %s" % (f.qualname, ci.name, src, sorted(supplied)))
@@ -90,7 +90,7 @@ def check(prog, run):
         raise AnalysisError("C14.O1: Schema.clone copies types in an unrecognised way")
     base = prog.get_class("py_gql.schema.schema_visitor", "SchemaVisitor")
     handler_class = {"on_field": "Field", "on_argument": "Argument", "on_input_field": "InputField", "on_enum_value": "EnumValue"}
-    for c in prog.subclasses(base):
+    for c in [base] + prog.subclasses(base):
         for h, k in handler_class.items():
             m = c.methods.get(h)
             if m is None:
